@@ -100,7 +100,9 @@ NameRefs == << TRef("", "X"), TRef("N", "X"), TRef("M", "X"), TEnt("", "X"), TEn
                TRef("", "Long"), TRef("", "Boolean"), TRef("", "decimal"), TRef("", "Y"),
                \* the built-in types themselves (not references): with a declaration of the same name in scope
                \* (builtinShadow) their text form must still mean the built-in
-               TLong, TString, [t |-> "ext", name |-> "decimal"], TSet(TBool) >>
+               TLong, TString, [t |-> "ext", name |-> "decimal"], TSet(TBool),
+               \* extension types the language does not have
+               [t |-> "ext", name |-> "foo"], [t |-> "ext", name |-> "Long"] >>
 NameSchema(dBare, dN, r, builtinShadow) ==
   [ns |-> << Ns("", (IF dBare = "e" THEN <<Ent("X", <<>>, <<>>, None)>> ELSE <<>>) \o (IF builtinShadow THEN <<Ent("Long", <<>>, <<>>, None)>> ELSE <<>>),
                 <<>>, <<>>, (IF dBare = "c" THEN <<[name |-> "X", annos |-> NoA, type |-> TString]>> ELSE <<>>)
@@ -124,8 +126,14 @@ Ladder ==
                        ELSE <<>>,
                        IF i = 1 THEN Applies(<<Ref("", "E")>>, <<Ref("", "E")>>, None) ELSE None)],
                 <<>>) >>]
+\* an entity type that is NAMED Action (legal for this resolver) with record-typed attributes, one of them with the
+\* empty name: access paths through the `action` variable
+ActionNamed ==
+  [ns |-> << Ns("", << Ent("Action", <<>>, << Attr("", TRec(<<Attr("opt", TLong, TRUE)>>), FALSE), Attr("r", TRec(<<Attr("opt", TLong, TRUE)>>), FALSE) >>, None),
+                       Ent("User", <<>>, << Attr("r", TRec(<<Attr("opt", TLong, TRUE)>>), FALSE) >>, None) >>, <<>>,
+                << Act("view", <<>>, Applies(<<Ref("", "User")>>, <<Ref("", "User")>>, TRec(<<Attr("r", TRec(<<Attr("opt", TLong, TRUE)>>), FALSE)>>))) >>, <<>>) >>]
 FeatureSchemas ==
-  << Ladder, [ns |-> << [name |-> "N", annos |-> A("doc", Odd) \o A("flag", <<>>),
+  << Ladder, ActionNamed, [ns |-> << [name |-> "N", annos |-> A("doc", Odd) \o A("flag", <<>>),
                  entities |-> << [name |-> "E", annos |-> A("id", <<101>>), parents |-> <<Ref("", "F"), Ref("N", "F")>>,
                                   shape |-> << [name |-> "if", type |-> TString, opt |-> TRUE, annos |-> A("a", <<49>>)],
                                                Attr("a b", TSet(TRec(<<Attr("", TLong, TRUE), Attr("~{e9}", TRef("", "ipaddr"), FALSE)>>)), FALSE),
